@@ -1129,6 +1129,9 @@ class FnKinds:
             return None
         cmp_op = None
         lhs = rhs = None
+        pd = self._postdec_loop(f, depth, init, incs, c)
+        if pd is not None:
+            return pd
         if c.get("k") == "Bin" and c.get("op") in ("<", "<=", "!=", ">", ">="):
             cmp_op, lhs, rhs = c["op"], strip(c["lhs"]), strip(c["rhs"])
         elif c.get("k") == "OpCall" and c.get("op") in ("!=", "<") and len(c.get("a", [])) == 2:
@@ -1201,6 +1204,38 @@ class FnKinds:
             lp.canon = "adj(%s,%s)" % (o1, self.canon(n1))
             return lp
         return self._norm_counted(f, depth, init, incs, cmp_op, lhs, rhs, prev_decls)
+
+    def _postdec_loop(self, f, depth, init, incs, c):
+        """the unsigned reverse idiom `for(k = N; k-- > c; )`: the body sees k = N-1, N-2, ..., c (descending) -> Loop('down') over [c, N)"""
+        if c.get("k") != "Bin" or c.get("op") not in (">", "!=") or [x for x in incs if x is not None]:
+            return None
+        l = strip(c["lhs"])
+        if not (l.get("k") == "Un" and l.get("op") == "--" and l.get("post") and strip(l["e"]).get("k") == "Ref" and strip(l["e"]).get("dk") == "local"):
+            return None
+        var = strip(l["e"])
+        d = var["d"]
+        c0 = self.size(c["rhs"])
+        if c0 is None or not c0.is_const() or (c["op"] == "!=" and c0.c != 0):
+            return None
+        if len(self.mut.get(d, [])) != 1:
+            return None
+        start = None
+        init_s = strip(init) if init is not None else None
+        if init_s is not None and init_s.get("k") == "Decl":
+            for v in init_s.get("vars", []):
+                if v["d"] == d:
+                    start = v.get("init")
+        elif init_s is None:
+            vdecl = self.locals.get(d)
+            if vdecl is not None and vdecl.get("init") is not None and self.decl_depth.get(d, -1) == sum(1 for fr in self.frames if fr.kind == "loop"):
+                start = vdecl["init"]
+        hi_s = self.size(start) if start is not None else None
+        if hi_s is None:
+            return None
+        lp = Loop("down", f, var=d, lo=c0.c, hi=self.norm(hi_s), depth=depth, extra_inc=[], varname=var["n"], start=self.norm(hi_s - 1), start_expr=start, postdec=True)
+        lp.rng = Rng(c0.c, self.norm(hi_s))
+        lp.canon = "down(%d,%r)" % (c0.c, self.norm(hi_s))
+        return lp
 
     def _norm_counted(self, f, depth, init, incs, cmp_op, lhs, rhs, prev_decls):
         # counted loop on an integer variable
